@@ -380,3 +380,64 @@ Lemma result_verified multi k pops (verified : indiv -> Prop) :
 Proof.
   intros kpos H V m Hm. apply V. apply (final_snapshot_members_seen multi k pops kpos H), Hm.
 Qed.
+
+(* ---------- consequences along the run (added in the extension pass) ---------- *)
+
+(* (7) multi objective: the returned individuals are mutually non-dominated (an antichain) *)
+Lemma multi_result_antichain k pops :
+  shown_multi (concat (map snd pops)) -> no_evict_from k run_init pops = true ->
+  let r := optimise true k pops in
+  forall m m', In m (items (r_arch r)) -> In m' (items (r_arch r)) ->
+  f_dom (fitness m') (fitness m) = false.
+Proof.
+  intros H Ne r m m' Hm Hm'. apply (multi_obj_nondominated k pops H Ne m Hm).
+  unfold r in *. rewrite (recorded_optimise true k pops H).
+  rewrite (final_noop true k pops H) in Hm'. apply in_or_app. right. exact Hm'.
+Qed.
+
+(* (8) single objective: the best-so-far never gets worse along the run -- the head of the
+   archive after any prefix of the recorded populations is not better than the best returned *)
+Lemma single_best_monotone k pre post :
+  1 <= k -> shown_ok (concat (map snd (pre ++ post))) ->
+  forall h rest, items (r_arch (loop false k pre)) = h :: rest ->
+  forall best rest', items (r_arch (optimise false k (pre ++ post))) = best :: rest' ->
+  f_better (fitness h) (fitness best) = false.
+Proof.
+  intros kpos H h rest Eh best rest' Eb.
+  apply (single_obj_best k (pre ++ post) kpos H best rest' Eb).
+  rewrite (recorded_optimise false k (pre ++ post) H). apply in_or_app. left.
+  rewrite map_app, concat_app. apply in_or_app. left.
+  assert (Hp : shown_ok (concat (map snd pre))).
+  { rewrite map_app, concat_app in H. apply (shown_ok_prefix _ _ H). }
+  rewrite loop_arch_single in Eh.
+  destruct (hof_k_best k (map snd pre) kpos Hp) as [Inc _]. apply Inc. rewrite Eh. left. reflexivity.
+Qed.
+
+(* (9) single objective: the returned list is exactly min(k, number of distinct recorded
+   individuals) long and sorted best first *)
+Lemma single_result_exact k pops :
+  1 <= k -> shown_ok (concat (map snd pops)) ->
+  let r := optimise false k pops in
+  length (result r) = Nat.min k (length (nodup Nat.eq_dec (map uid (concat (map snd pops))))) /\
+  StronglySorted (fun x y => f_better (fitness y) (fitness x) = false) (items (r_arch r)).
+Proof.
+  intros kpos H r. unfold r, result. rewrite (final_noop false k pops H), map_length, loop_arch_single.
+  destruct (hof_k_best k (map snd pops) kpos H) as [_ [L [So _]]]. split; assumption.
+Qed.
+
+(* (10) single objective: a recorded individual that is not returned is not better than ANY
+   returned one (the returned set is a k-best set of everything recorded) *)
+Lemma single_result_k_best k pops :
+  1 <= k -> shown_ok (concat (map snd pops)) ->
+  let r := optimise false k pops in
+  forall s, In s (concat (map snd (r_pops r))) ->
+  (forall m, In m (items (r_arch r)) -> uid m <> uid s) ->
+  forall m, In m (items (r_arch r)) -> f_better (fitness s) (fitness m) = false.
+Proof.
+  intros kpos H r s Hs Hn m Hm. unfold r in *.
+  rewrite (final_noop false k pops H) in Hn, Hm. rewrite (recorded_optimise false k pops H) in Hs.
+  rewrite loop_arch_single in Hn, Hm, Hs.
+  destruct (hof_k_best k (map snd pops) kpos H) as [Inc [_ [_ Out]]].
+  apply (Out s); [|exact Hn|exact Hm].
+  apply in_app_or in Hs as [Hs|Hs]; [exact Hs|apply Inc, Hs].
+Qed.
